@@ -109,7 +109,7 @@ def run(ctx):
     prog = ctx.prog
     ce = ConstEval(prog)
     spec = _load_spec()
-    ctx.clauses_decided = ["R1 one-based -> zero-based", "R2 column layouts", "R3 chemists' -> physicists'", "R4 triangular / block unpacking", "R5 permutation literals", "R6 labelled records attached by label", "R7 index maps of reshaping expressions (symbolic evaluation)", "R8 no placement by narrow counter fields", "R9 VASP coordinate-mode switch", "R10 deferred application of section data"]
+    ctx.clauses_decided = ["R1 one-based -> zero-based", "R2 column layouts", "R3 chemists' -> physicists'", "R4 triangular / block unpacking", "R5 permutation literals", "R6 labelled records attached by label", "R7 index maps of reshaping expressions (symbolic evaluation)", "R8 no placement by narrow counter fields", "R9 VASP coordinate-mode switch", "R10 deferred application of section data", "R11 Molden tag meaning (finite-domain evaluation)"]
     ctx.clauses_declined = ["free-format and log-file parsers beyond R1/R3/R4/R5", "numerical accuracy of parsed values", "Fortran D exponents"]
 
     # ------------------------------------------------------------------ R2
@@ -570,6 +570,10 @@ def run(ctx):
 
     check_vasp_mode_switch(ctx, "R9")
     check_deferred_application(ctx)
+    from .c01 import check_molden_reader_tags
+
+    ctx.rule("R11", "Molden pure/Cartesian tag lines are read with the meaning the format assigns to them", "a [5D10F] or [7F] file gets f (or d) shells of the wrong size: the coefficients are misassigned or the file is rejected")
+    check_molden_reader_tags(ctx, ce, "R11")
 
 
 NARROW_POSITIVE = '''
